@@ -31,7 +31,14 @@ fn dag_spec() -> DagSpec {
 enum Unit {
     Dag { n: usize, prefix: Vec<POp> },
     Chain { k: usize, pat: usize },
+    /// outer(G, D + c): two inner choice clauses (every kind, register and
+    /// immediate forms) under an outer min/max that can make either of them
+    /// dead, so that dead clauses of every form meet live clauses before and
+    /// after them in the trace
+    Guarded { outer: usize, g: usize, d: usize },
 }
+
+const CHOICE_OPS: [B; 4] = [B::Min, B::Max, B::And, B::Or];
 
 const PATTERNS: [&[B]; 4] = [
     &[B::Min, B::Max],
@@ -55,6 +62,13 @@ fn units(tier: Tier) -> Vec<Unit> {
     for k in [1usize, 2, 3, 4, 8, 9, 33, 64, 65] {
         for pat in 0..PATTERNS.len() {
             v.push(Unit::Chain { k, pat });
+        }
+    }
+    for outer in 0..2 {
+        for g in 0..CHOICE_OPS.len() {
+            for d in 0..CHOICE_OPS.len() {
+                v.push(Unit::Guarded { outer, g, d });
+            }
         }
     }
     v
@@ -507,7 +521,7 @@ impl Check for C04 {
     }
     fn meta(&self, tier: Tier) -> Meta {
         Meta {
-            rule: "case = program with >= 1 choice clause; programs: every DAG up to the node bound over leaves {X,Y,0.5} and ops {min,max,and,or,add,neg} (clauses sharing operands, feeding each other, with immediates), chains of k clauses (k up to 65) in 4 kind patterns x 3 immediate patterns; for every box over per-axis endpoints {-1,0,0.5,1} (100 boxes, degenerate ones included): a trace is taken from the interval evaluator on the box and from the point evaluator at each of its corner/edge/centre points, on VM<255>, VM<3> and JIT; simplify must succeed; the child is compared bit-for-bit with the ORIGINAL function at every sample point of the traced domain under point, float-slice and grad-slice evaluators; variable map, output count and size are checked; chains of nested simplifications over sub-boxes (halves, quadrants, centre) up to the nesting bound; VM<255> is also simplified into budgets 3, 4 and 12".into(),
+            rule: "case = program with >= 1 choice clause; programs: every DAG up to the node bound over leaves {X,Y,0.5} and ops {min,max,and,or,add,neg} (clauses sharing operands, feeding each other, with immediates), chains of k clauses (k up to 65) in 4 kind patterns x 3 immediate patterns; 'guarded' programs outer(G, D+c) with outer in {min,max}, G and D every choice kind in reg/reg, reg/imm and imm/reg form, c in {0,+10,-10}, both operand orders (dead clauses of every form between live ones); for every box over per-axis endpoints {-1,0,0.5,1} (100 boxes, degenerate ones included): a trace is taken from the interval evaluator on the box and from the point evaluator at each of its corner/edge/centre points, on VM<255>, VM<3> and JIT; simplify must succeed; the child is compared bit-for-bit with the ORIGINAL function at every sample point of the traced domain under point, float-slice and grad-slice evaluators; variable map, output count and size are checked; chains of nested simplifications over sub-boxes (halves, quadrants, centre) up to the nesting bound; VM<255> is also simplified into budgets 3, 4 and 12".into(),
             bounds: match tier {
                 Tier::Quick => "DAG nodes <= 2, nesting depth 2 (chains of clauses: depth 3), JIT on every 7th box".into(),
                 Tier::Thorough => "DAG nodes <= 3, nesting depth 3 (VM) / 2 (JIT), all boxes".into(),
@@ -538,6 +552,43 @@ impl Check for C04 {
                 for imm_every in [0usize, 1, 3] {
                     let p = prog::family_chain(k, PATTERNS[pat], imm_every);
                     check_prog(cx, &mut sub, &p, tier, true);
+                }
+            }
+            Unit::Guarded { outer, g, d } => {
+                let outer_op = [B::Min, B::Max][outer];
+                let (gop, dop) = (CHOICE_OPS[g], CHOICE_OPS[d]);
+                // operand forms of the two inner clauses: reg/reg, reg/imm, imm/reg
+                for gform in 0..3 {
+                    for dform in 0..3 {
+                        for shift in [0.0f32, 10.0, -10.0] {
+                            for swap in [false, true] {
+                                let mut p = Prog::default();
+                                let x = p.push(POp::Var(0));
+                                let y = p.push(POp::Var(1));
+                                let c1 = p.push(POp::Const(0.5));
+                                let c2 = p.push(POp::Const(0.25));
+                                let gn = match gform {
+                                    0 => p.push(POp::Bin(gop, y, x)),
+                                    1 => p.push(POp::Bin(gop, y, c1)),
+                                    _ => p.push(POp::Bin(gop, c1, y)),
+                                };
+                                let dn = match dform {
+                                    0 => p.push(POp::Bin(dop, x, y)),
+                                    1 => p.push(POp::Bin(dop, x, c2)),
+                                    _ => p.push(POp::Bin(dop, c2, x)),
+                                };
+                                let dn = if shift != 0.0 {
+                                    let k = p.push(POp::Const(shift));
+                                    p.push(POp::Bin(B::Add, dn, k))
+                                } else {
+                                    dn
+                                };
+                                let r = if swap { p.push(POp::Bin(outer_op, dn, gn)) } else { p.push(POp::Bin(outer_op, gn, dn)) };
+                                p.roots = vec![r];
+                                check_prog(cx, &mut sub, &p, tier, false);
+                            }
+                        }
+                    }
                 }
             }
         }
